@@ -414,7 +414,7 @@ func (fr *Frame) assumeWF(v *Val) {
 	case sSlc:
 		t := v.t
 		fr.vc.fact(and(app("<=", "0", sArr(t)), app("<=", sArr(t), fr.st.alloc), app("<=", "0", sOff(t)), app("<=", "0", sLen(t)), app("<=", sLen(t), sCap(t)),
-			implies(eq(sArr(t), "0"), eq(sCap(t), "0")), app("<=", sCap(t), "4611686018427387904")))
+			implies(eq(sArr(t), "0"), and(eq(sCap(t), "0"), eq(sOff(t), "0"))), app("<=", sCap(t), "4611686018427387904")))
 	case sIfc:
 		fr.vc.fact(and(app("<=", "0", iTag(v.t)), app("<=", "0", iVal(v.t)), app("<=", iVal(v.t), fr.st.alloc), implies(eq(iTag(v.t), "0"), eq(iVal(v.t), "0"))))
 	}
